@@ -20,6 +20,7 @@ ASSUMPTIONS = ["strict.py is the specification of 'inconsistent' (lenient token 
                "DESIGN 3.2)", "pool shim M1 in-process"]
 REQUIRED_OBS = {"mutants_in_scope": 500, "set:operators_in_scope": 14, "pairs_in_scope": 20,
                 "coords_mutants_in_scope": 20, "cli_mutants": 30, "compensating_pairs": 10}
+CHAIN = {"quick": 2, "thorough": 10}
 TIMEOUT = {"quick": 400, "thorough": 2400}
 
 
